@@ -219,7 +219,8 @@ func c17frames(env sched.Env) *sched.Report {
 //
 // alphabet  requests admin | localconf | drain | terminate | unknown(99) ; sequences up to length 4/5;
 //           a first child that drops after k requests (k = 0..len) or mid-request (header only),
-//           or sends a malformed frame, followed by a second child doing the full sequence
+//           or sends a malformed frame, or sends a request and is gone before its reply can be written,
+//           followed by a second child doing the full sequence; every type byte 0..255 that is not a request
 // oracle    one instance call per request, in request order; each acknowledged with the matching reply
 //           type; unknown -> unknown reply; the second child completes
 // ---------------------------------------------------------------------------
@@ -228,11 +229,23 @@ type scriptedInst struct {
 	mu    sync.Mutex
 	id    int
 	calls []string
+	gate  chan struct{} // when set, the next step waits for it (the requesting child goes away meanwhile)
 }
 
 func (s *scriptedInst) ID() int            { return s.id }
 func (s *scriptedInst) ParentID() int      { return 0 }
-func (s *scriptedInst) log(c string)       { s.mu.Lock(); s.calls = append(s.calls, c); s.mu.Unlock() }
+func (s *scriptedInst) log(c string) {
+	s.mu.Lock()
+	g := s.gate
+	s.gate = nil
+	s.mu.Unlock()
+	if g != nil {
+		<-g
+	}
+	s.mu.Lock()
+	s.calls = append(s.calls, c)
+	s.mu.Unlock()
+}
 func (s *scriptedInst) ShutdownAdmin()     { s.log("admin") }
 func (s *scriptedInst) DrainListeners()    { s.log("drain") }
 func (s *scriptedInst) ShutdownLocalConf() { s.log("localconf") }
@@ -265,6 +278,16 @@ type c17seq struct {
 }
 
 var instSeq int
+
+func c17typeClass(t int) string {
+	switch {
+	case t == 0:
+		return "0"
+	case t <= int(unknownReply):
+		return "a reply type"
+	}
+	return "beyond the defined types"
+}
 
 func c17handover(cs c17seq) (sig, detail string) {
 	instSeq++
@@ -305,6 +328,27 @@ func c17handover(cs c17seq) (sig, detail string) {
 		return "", ""
 	}
 	var want []string
+	if cs.Drop == "alltypes" {
+		// every type byte that is not one of the four requests, on one connection: each gets the unknown reply
+		c := dial()
+		if c == nil {
+			return "first-child-cannot-connect", ""
+		}
+		defer c.Close()
+		for t := 0; t <= 255; t++ {
+			mt := messageType(t)
+			if mt == shutdownAdminReq || mt == shutdownLocalConfReq || mt == drainListenersReq || mt == terminateReq {
+				continue
+			}
+			if s, d := exchange(c, reqKind{"unknown", mt, unknownReply, ""}); s != "" {
+				return s + fmt.Sprintf(" / type byte class %s", c17typeClass(t)), fmt.Sprintf("type byte %d: %s", t, d)
+			}
+		}
+		if calls := inst.snapshot(); len(calls) != 0 {
+			return "instance-step-for-unknown-request", fmt.Sprint(calls)
+		}
+		return "", ""
+	}
 	if cs.Drop != "" {
 		c1 := dial()
 		if c1 == nil {
@@ -325,6 +369,25 @@ func c17handover(cs c17seq) (sig, detail string) {
 			}
 		}
 		switch cs.Drop {
+		case "noreply":
+			// the child sends a request and is gone before the reply can be written: the step still counts,
+			// the reply cannot be delivered
+			g := make(chan struct{})
+			inst.mu.Lock()
+			inst.gate = g
+			inst.mu.Unlock()
+			k := reqKinds[cs.Seq[cs.K%len(cs.Seq)]]
+			if k.call == "" || k.call == "kill" {
+				k = reqKinds[0]
+			}
+			sendMessage(c1, &message{Type: k.typ})
+			want = append(want, k.call)
+			c1.Close()
+			time.Sleep(20 * time.Millisecond)
+			close(g)
+			for w := 0; w < 3000 && len(inst.snapshot()) < len(want); w++ {
+				time.Sleep(10 * time.Millisecond)
+			}
 		case "header":
 			c1.Write([]byte{byte(shutdownAdminReq), 0})
 		case "garbage":
@@ -375,6 +438,14 @@ func c17sequences(env sched.Env) *sched.Report {
 	}
 	sigs := map[string]bool{}
 	n := 0
+	if env.Shard == 0 {
+		rep.Execs++
+		cs := c17seq{Drop: "alltypes"}
+		if sig, detail := c17handover(cs); sig != "" {
+			sigs[sig] = true
+			rep.Violations = append(rep.Violations, sched.CustomViolation("C17/handover", sig, detail, cs))
+		}
+	}
 	var rec func(seq []int)
 	rec = func(seq []int) {
 		if len(seq) > 0 {
@@ -383,6 +454,9 @@ func c17sequences(env sched.Env) *sched.Report {
 			if len(seq) <= 3 {
 				for k := 0; k <= len(seq); k++ {
 					cases = append(cases, c17seq{Seq: seq, Drop: "after", K: k}, c17seq{Seq: seq, Drop: "header", K: k}, c17seq{Seq: seq, Drop: "garbage", K: k})
+					if len(seq) <= 2 {
+						cases = append(cases, c17seq{Seq: seq, Drop: "noreply", K: k})
+					}
 				}
 			}
 			for _, cs := range cases {
